@@ -10,6 +10,15 @@ import (
 // names split conditions, the query is decided by exhaustive case analysis over them (every
 // case must be unsat; a sat case is a counterexample of the whole query); finally the race.
 func solveOblig(o *Oblig, budget int) SolveResult {
+	if r, ok := cacheLookup(o); ok {
+		return r
+	}
+	r := solveObligUncached(o, budget)
+	cacheStore(o, r)
+	return r
+}
+
+func solveObligUncached(o *Oblig, budget int) SolveResult {
 	if len(o.Cubes) == 0 || o.Expect == "sat" {
 		return solve2(o.Name, o.Script, o.Alt, budget)
 	}
